@@ -19,10 +19,10 @@ RULE = ("each evaluation is one scenario: a client timeout (and disconnect-on-ti
 ASSUMPTIONS = ["'issued' is the moment KafkaClient._make_request_to_broker is entered (stamped by a harness wrapper); "
                "the timeout in force is max(client timeout, stated minimum)",
                "when reply delivery and the timer coincide exactly either outcome is accepted"]
-REACH_MIN = {"timed_out": {"quick": 200, "thorough": 6000}, "answered_in_time": {"quick": 300, "thorough": 9000},
-             "late_replies": {"quick": 100, "thorough": 3000}, "never_connected": {"quick": 40, "thorough": 1200},
-             "disconnect_on_timeout_events": {"quick": 40, "thorough": 1200},
-             "join_min_timeout": {"quick": 40, "thorough": 1000}}
+REACH_MIN = {"timed_out": {"quick": 200, "thorough": 3375}, "answered_in_time": {"quick": 300, "thorough": 5062},
+             "late_replies": {"quick": 100, "thorough": 1687}, "never_connected": {"quick": 40, "thorough": 675},
+             "disconnect_on_timeout_events": {"quick": 40, "thorough": 675},
+             "join_min_timeout": {"quick": 40, "thorough": 675}}
 EPS = 1e-6
 
 
